@@ -583,3 +583,37 @@ for _m, _op in (("greater", ">"), ("greater_equal", ">="), ("lower", "<"), ("low
 DT = f"eval_res(self.instruction.instruction, {S0})"
 DT_ST = f"eval_st(self.instruction.instruction, {S0})"
 # unary_minus::exec is K-only: Verus rejects unary minus on f64 (the Float arm of the same function)
+
+# ---------------------------------------------------------------- at: fold path ------------
+unit(id="at.range", src="src/instruction/at.rs", path=[("fn", "range")], mod="at", extra="use std::ops::Range;\n",
+     requires=["value <= isize::MAX as usize"],
+     ensures=[("at.range.is_minus_n_to_n", ["C09", "C04"], "r.start == -(value as int) && r.end == value as int")])
+unit(id="at.exec.pure", src="src/instruction/at.rs", path=[("fn", "exec")], mod="at", stub_only=True,
+     ensures=[("at.exec.pure", [], "r == op_at(variable, index)")])
+unit(id="at.create_from_instructions", src="src/instruction/at.rs", path=[("fn", "create_from_instructions")], mod="at",
+     stubs=["at.exec.pure", "at.range"], fragments=["opspecs"], extra="use std::ops::Range;\n",
+     requires=["instruction is Array ==> instruction->Array_0.instructions@.len() <= isize::MAX as usize"],
+     ensures=[
+         ("at.fold.constants_equal_exec", ["C09", "C04"],
+          f"instruction is Variable && index is Variable ==> (match op_at(instruction->Variable_0, index->Variable_0) {{ "
+          f"Ok(v) => r == {OKI}(Instruction::Variable(v)), Err(e) => r == Err::<Instruction, ExecError>(e) }})"),
+         ("at.fold.early_error_only_for_constant_index_outside_array_literal", ["C09", "C04"],
+          "!(instruction is Variable && index is Variable) ==> (r is Err <==> (instruction is Array && index is Variable "
+          "&& index->Variable_0 is Int && !(-(instruction->Array_0.instructions@.len() as int) <= index->Variable_0->Int_0 "
+          "< instruction->Array_0.instructions@.len() as int))) && (r is Err ==> r->Err_0 is IndexOutOfBounds)"),
+         ("at.fold.non_constant_rebuilt_in_place", ["C09", "C04"],
+          "!(instruction is Variable && index is Variable) && r is Ok ==> "
+          f"r == {OKI}(Instruction::BinOperation(Arc::new(BinOperation {{ lhs: instruction, rhs: index, op: BinOperator::At }})))"),
+     ])
+
+# ---------------------------------------------------------------- array / tuple literals ----
+for _id, _src, _impl, _field, _ctor in (("array.exec", "src/instruction/array.rs", "ArrayIns", "instructions", "Array"),
+                                        ("tuple.exec", "src/instruction/tuple.rs", "TupleIns", "elements", "Tuple")):
+    _SEQ = f"seq_res(self.{_field}@, {S0}, 0, Seq::empty())"
+    unit(id=_id, src=_src, path=[("impl", f"Exec for {_ctor}"), ("fn", "exec")], impl=_impl,
+         ensures=[
+             (f"{_id}.elements_left_to_right_each_once", ["C07"],
+              f"{S9} == seq_st(self.{_field}@, {S0}, 0) && (match {_SEQ} {{ "
+              f"Ok(vs) => r is Ok && r->Ok_0 is {_ctor} && r->Ok_0->{_ctor}_0.elems@ == vs, "
+              f"Err(e) => r == Err::<Variable, ExecStop>(e) }})"),
+         ])
